@@ -670,7 +670,7 @@ pub fn run(pc: &PropCtx) {
     let n = pc.tier.pick(6_000, 150_000);
     pc.run_tape("random_patterns", n, (128, 1200), gen_case, check);
     if pc.tier == crate::runner::Tier::Thorough {
-        pc.run_fuzz("C11:random_patterns", 150_000, 5000, &|v| replay(pc, "random_patterns", v).unwrap_or(Verdict::Reject("unreadable")));
+        pc.run_fuzz("C11:random_patterns", 6_000, 5000, &|v| replay(pc, "random_patterns", v).unwrap_or(Verdict::Reject("unreadable")));
     }
     pc.require_class("random_patterns:fast_line_regex_present", n as u64 / 40);
     pc.require_class("enumerated_grammar:dfa_built", pats.len() as u64);
